@@ -100,6 +100,9 @@ pub struct AbortCase {
     pub code: u8,
     /// intermediate packets before the abort (position in the reply script)
     pub intermediates: usize,
+    /// a print line and a status information (with receipt number) precede the abort
+    #[serde(default)]
+    pub after_status: bool,
     /// a dangling pre-authorisation exists (needed for the dangling-reversal site)
     pub dangling: bool,
     pub terminal_id_differs: bool,
@@ -156,7 +159,7 @@ pub fn check_abort(c: &AbortCase) -> CheckResult {
         _ => 0,
     };
     // in `cancel`, the dangling reversal is the second PreAuthReversal: not a separate site (same code path as configure's)
-    sc.plan = vec![PlanEntry { kind: c.site, occ: Some(occ), from_start: false, directive: Directive { outcome: Outcome::Abort(c.code), ..Default::default() } }];
+    sc.plan = vec![PlanEntry { kind: c.site, occ: Some(occ), from_start: false, directive: Directive { outcome: if c.after_status { Outcome::AbortAfterStatus(c.code) } else { Outcome::Abort(c.code) }, ..Default::default() } }];
     let tr = guard(|| run_scenario(&sc)).map_err(|p| Violation::new("abort", format!("C20 op={} kind=harness-panic", c.op), p, input.clone()))?;
     if !tr.new_returned {
         return Ok(());
@@ -233,7 +236,15 @@ pub fn run(tier: Tier) -> i32 {
                 if inter > 0 && !chatty {
                     continue;
                 }
-                let c = AbortCase { op: op.to_string(), site, code: code as u8, intermediates: inter, dangling, terminal_id_differs: tid };
+                // the abort may also come behind a print line and a status information (declined payment)
+                let status_site = matches!(site, Kind::Reservation | Kind::PartialReversal | Kind::PreAuthReversal | Kind::EndOfDay);
+                if status_site {
+                    let c2 = AbortCase { op: op.to_string(), site, code: code as u8, intermediates: inter, after_status: true, dangling, terminal_id_differs: tid };
+                    st.case(true, fnv(&serde_json::to_vec(&c2).unwrap()));
+                    st.class(&format!("{op}/{site:?}:after-status-information"));
+                    ctx.record(check_abort(&c2), st);
+                }
+                let c = AbortCase { op: op.to_string(), site, code: code as u8, intermediates: inter, after_status: false, dangling, terminal_id_differs: tid };
                 st.case(true, fnv(&serde_json::to_vec(&c).unwrap()));
                 st.class(&format!("{op}/{site:?}"));
                 if code == 0x64 && inter == 1 {
@@ -251,7 +262,7 @@ pub fn run(tier: Tier) -> i32 {
             let strat = (0usize..SITES.len(), any::<u8>(), 0usize..6, any::<bool>());
             ctx.proptest(seed, 20_000, &strat, st, |(si, code, inter, dang), st| {
                 let (op, site, dangling, tid) = SITES[*si];
-                let c = AbortCase { op: op.to_string(), site, code: *code, intermediates: *inter, dangling: dangling || *dang, terminal_id_differs: tid };
+                let c = AbortCase { op: op.to_string(), site, code: *code, intermediates: *inter, after_status: *inter % 2 == 1, dangling: dangling || *dang, terminal_id_differs: tid };
                 st.case(true, fnv(&serde_json::to_vec(&c).unwrap()));
                 st.class("random");
                 check_abort(&c)
@@ -259,7 +270,7 @@ pub fn run(tier: Tier) -> i32 {
         });
         stats.merge(s);
     }
-    stats.exhaustive_parts = vec!["all 256 result codes x 16 (operation, exchange) sites x abort directly after the ack / after 1 and 3 intermediate packets".into()];
+    stats.exhaustive_parts = vec!["all 256 result codes x 16 (operation, exchange) sites x abort directly after the ack / after 1 and 3 intermediate packets / behind a print line and a status information carrying a receipt number".into()];
     ctx.finish(
         stats,
         "enumeration: every result code 0..255 x every exchange in which the terminal may abort (read_card; begin: Reservation; commit: PartialReversal, pending query, dangling reversal, end-of-day; cancel: PreAuthReversal, pending query, end-of-day; configure: system info, SetTerminalId, Initialization, pending query, dangling reversal, end-of-day) x position of the abort in the reply script. Oracle: the call returns Err whose chain contains ZVTError::Aborted(c), or whose text contains the code (hex or decimal), or - for read_card - the specification's message for c (own copy of the chapter-10 table); documented translations checked positively (read_card+6c => NoCardPresented, Reservation+fc => NeedsPinEntry, end-of-day+a0 => Ok). For the pending query only codes != b8 count as aborts. non-trivial = every case; distinct by (op, site, code, position)",
